@@ -121,7 +121,8 @@ def drive(tid, ns, rmap, seq, L, R):
 
 def run_manual(chk, tier, rng, tables, L, R):
     # ---- model: the tables realise the documented behaviour trigger by trigger ---------------------------------
-    res = chk.tlc("MC_Manual", "MC_Manual.cfg", label="manual", include=[tables], workers=8, timeout=600)
+    sfx = "" if tier == "quick" else "_thorough"
+    res = chk.tlc("MC_Manual", f"MC_Manual{sfx}.cfg", label="manual", include=[tables], workers=8, timeout=600)
     for inv in res.invariant_violations:
         chk.violation("model:" + inv, {"model": "MC_Manual", "invariant": inv}, {"tlc": res.trace_text()},
                       "step-by-step API: the extracted run table violates " + inv)
@@ -152,3 +153,40 @@ def run_manual(chk, tier, rng, tables, L, R):
                           f"clause {clause}, observed {op.get('res')} -> {op.get('ms')}")
     chk.extra["manual_sessions"] = {"sessions": len(traces), "triggers": sum(1 for t in traces for o in t["ops"] if o["ev"] == "Trig"),
                                     "by_result": {r: sum(1 for t in traces for o in t["ops"] if o.get("res") == r) for r in ("ok", "noop", "error")}}
+
+    # ---- specification -> code: every session TLC enumerates (each documented state reached by a legal prefix, then every sequence of
+    # <= 2 (quick) / 3 (thorough) triggers over the ten kinds, 1-2 scales, with / without right products) replayed into a real machine ----
+    gen = chk.tlc("MC_ManualGen", f"MC_ManualGen{sfx}.cfg", label="manual_gen", include=[tables], workers=1, timeout=900)
+    for inv in gen.invariant_violations:
+        chk.violation("model:" + inv, {"model": "MC_ManualGen", "invariant": inv}, {"tlc": gen.trace_text()}, "")
+    behs = [v for tag, v in gen.printed if tag == "BEH" and isinstance(v, dict)]
+    if len(behs) < 1000:
+        from vp.core import MachineryFailure
+        raise MachineryFailure(f"only {len(behs)} step-by-step sessions generated")
+    nrep = 0
+    for n, b in enumerate(behs):
+        kinds = [t["kind"] for t in b["trig"]]
+        t = drive(f"g{n}", b["ns"], b["rmap"], ["#prepare"] + kinds + ["#exit"], L, R)
+        chk.count(key=("manual_gen", b["ns"], b["rmap"], tuple(kinds)))
+        nrep += 1
+        obs = [o for o in t["ops"] if o["ev"] == "Trig"]
+        bad = None
+        for j, (want, o) in enumerate(zip(b["trig"], obs)):
+            for fld in ("res", "sides", "ms", "scale"):
+                if list(want[fld]) != list(o[fld]) if fld == "sides" else want[fld] != o[fld]:
+                    bad = (j, fld, want[fld], o[fld])
+                    break
+            if bad is None and o["res"] != "ok" and not o["unchanged"]:
+                bad = (j, "refusal_is_noop", True, False)
+            if bad:
+                break
+        ex = t["ops"][-1]
+        if bad is None and (ex["ms"] != b["ms"] or ex["nev"] != 0):
+            bad = (len(obs), "exit_initial", b["ms"], ex["ms"])
+        if bad:
+            j, fld, w, g = bad
+            chk.violation("manual:replay_" + fld, {"op": "manual_replay", "clause": "manual:replay_" + fld, "kind": kinds[j] if j < len(kinds) else "exit",
+                                                   "state_before": (b["trig"][j - 1]["ms"] if j > 0 else "begin"), "ns": b["ns"], "rmap": b["rmap"]},
+                          {"behaviour": b, "session": t},
+                          f"session {kinds} (ns={b['ns']}, right products={b['rmap']}): trigger #{j + 1} - specification says {fld}={w}, the machine did {g}")
+    chk.extra["manual_replayed_sessions"] = nrep
